@@ -61,7 +61,7 @@ BATCH_P1 = {"new": 60, "set": 2, "m2o": 8, "app": 8, "rem": 1, "repl": 1, "clr":
 BATCH_P2 = {"new": 25, "set": 6, "m2o": 14, "app": 10, "rem": 8, "repl": 4, "clr": 2, "pop": 2, "del": 16, "cycdel": 5,
             "exp": 0, "readd": 0, "merge": 0, "rowswitch": 2, "pk": 0, "flush": 0, "commit": 0, "expire": 0,
             "expall": 0, "refresh": 0, "get": 0, "touch": 4, "tnew": 4, "add": 3, "undel": 4}
-FOCUS = [["Z2"], ["Z2c"], ["Z3", "Z4"], ["Z6"], ["Z1", "Z1b"], ["Z2", "Z2c"], ["Z1", "Z3", "Z6"], ["Z4", "Z1b"], ["Z7", "Z1"]]
+FOCUS = [["Z2"], ["Z2c"], ["Z3", "Z4"], ["Z6"], ["Z1", "Z1b"], ["Z2", "Z2c"], ["Z1", "Z3", "Z6"], ["Z4", "Z1b"], ["Z7", "Z1"], ["Z9"], ["Z9", "Z1b"]]
 
 
 def flush_errors():
@@ -302,6 +302,20 @@ PROBES = {
         ["new", "Node", 2, {"label": "b"}, {"parent": 1}], ["new", "Node", 3, {"label": "c"}, {"parent": 1}],
         ["new", "Node", 4, {"label": "d"}, {"parent": 0}], ["commit"],
         ["m2o", 3, "parent", 4], ["del", 1], ["new", "Node", 5, {"label": "e"}, {"parent": 3}], ["new", "Node", 6, {"label": "f"}, {"parent": 5}],
+    ],
+    # a row joins the flush only through an orphan cascade (removed from a one-directional
+    # delete-orphan collection) while an unrelated row of the same mapper is merely dirty on a
+    # scalar; the joining row has children in the database (3-level graph Draft -> Note -> Mark)
+    "orphan-joins-flush-beside-scalar-dirty-sibling": [
+        ["new", "Draft", 0, {"title": "d"}, {}], ["new", "Note", 1, {"text": "n1"}, {}], ["app", 0, "notes", 1],
+        ["new", "Note", 2, {"text": "n2"}, {}], ["new", "Mark", 3, {"score": 1}, {}], ["app", 1, "marks", 3],
+        ["new", "Mark", 4, {"score": 2}, {}], ["app", 1, "marks", 4], ["commit"], ["expall"],
+        ["touch", 0, "notes"], ["set", 2, "text", "changed"], ["rem", 0, "notes", 1],
+    ],
+    "orphan-joins-flush-folder-variant": [
+        ["new", "Folder", 0, {"name": "f"}, {}], ["new", "Note", 1, {"text": "n1"}, {}], ["new", "Note", 2, {"text": "n2"}, {}],
+        ["repl", 0, "notes", [1, 2]], ["new", "Note", 3, {"text": "n3"}, {}], ["new", "Mark", 4, {"score": 1}, {}], ["app", 2, "marks", 4],
+        ["commit"], ["expall"], ["touch", 0, "notes"], ["set", 3, "text", "x"], ["set", 1, "text", "y"], ["rem", 0, "notes", 2],
     ],
     "joined-inheritance-delete-manager-reassign": [
         ["new", "Manager", 0, {"name": "m0", "budget": 1}, {}], ["new", "Manager", 1, {"name": "m1", "budget": 2}, {}],
